@@ -183,6 +183,11 @@ def eval_case(c):
         if real.relerr(a.singular_values().values, b.singular_values().values) > tol or real.relerr(a.components().values, b.components().values) > 1e-6 \
                 or real.relerr(a.scores().values, b.scores().values) > 1e-6:
             msgs.append("ComplexEOF on real data differs from EOF")
+        # the truncated-solver route: the same seeded back end must be taken, so the two models agree to the last bit
+        a = S_.ComplexEOF(n_modes=2, solver="randomized", random_state=5).fit(da, "time")
+        b = S_.EOF(n_modes=2, solver="randomized", random_state=5).fit(da, "time")
+        if not (np.array_equal(a.singular_values().values, b.singular_values().values) and np.array_equal(a.components().values, b.components().values)):
+            msgs.append("ComplexEOF on real data (randomized solver, same seed) is not identical to EOF: another solver route was taken")
         a = C_.ComplexMCA(n_modes=2, use_pca=False, solver="full").fit(da, Y, "time")
         b = C_.MCA(n_modes=2, use_pca=False, solver="full").fit(da, Y, "time")
         if real.relerr(a.data["singular_values"].values, b.data["singular_values"].values) > tol or real.relerr(a.data["scores1"].values, b.data["scores1"].values) > 1e-6:
@@ -213,6 +218,11 @@ def eval_case(c):
         pa, pb = _align_sign(b.components(), a.components())
         if real.relerr(pb, pa) > 1e-4:
             msgs.append("SparsePCA without penalty: components differ from the EOFs")
+        # randomised (blocked) sketch: same variances to the sketch's accuracy, for every number of blocks
+        for nb in (1, 2, 3):
+            a = S_.SparsePCA(n_modes=3, alpha=0.0, beta=0.0, solver="randomized", random_state=2, n_blocks=nb, max_iter=2000, tol=1e-12).fit(da, "time")
+            if real.relerr(a.explained_variance().values, b.explained_variance().values) > 0.1:
+                msgs.append(f"SparsePCA without penalty (randomized, n_blocks={nb}): explained variance {a.explained_variance().values} vs EOF {b.explained_variance().values}")
     elif pair == "PCA(all)=noPCA":
         for cls, kw in ((C_.MCA, {}), (C_.CPCCA, dict(alpha=0.5)), (C_.ComplexCPCCA, dict(alpha=0.3))):
             cplx = cls is C_.ComplexCPCCA
